@@ -261,7 +261,14 @@ def check(case) -> Result:
                 if not m:
                     continue
                 i, j = int(m.group(1)), int(m.group(2))
-                res.checks += 2
+                res.checks += 4
+                for side, name in (("l", "border_left"), ("r", "border_right")):
+                    if side == "r" and cell is not it.block.cells[-1]:
+                        continue      # r2rtf convention: a cell's right edge is the left edge of its neighbour; only the last cell writes \\clbrdrr
+                    want = canon(attr_at(body.get(name), i, j, "single"))
+                    g = canon((cell.borders.get(side) or {}).get("style", "<none>"))
+                    if g != want:
+                        res.fail("interior", {"l": "left", "r": "right"}[side], f"page {pn + 1} cell r{i}c{j}: {name} {g!r} expected user's {want!r}")
                 if pos > 0:
                     want = canon(attr_at(body.get("border_top"), i, j, ""))
                     g = canon((cell.borders.get("t") or {}).get("style", "<none>"))
